@@ -181,7 +181,7 @@ chk("C20", "static analysis: MIR scan/walk templates, decision tables, loop rela
     "sum(len(piece_i)) [+ sep.len()*(n-1), 0 if empty]; every fill loop copies piece[j] to out[cursor] with one shared "
     "cursor advanced by one and bounds-checked stores; join writes first,(sep,piece)*; __ElemDispatch/__SepArg len agree with "
     "the bytes they produce per kind; ArrayStr::as_str re-validates; in the macro expansions LEN and the bytes are computed "
-    "from the same ARGS constant.",
+    "from the same ARGS constant; HYGIENE lint on the concat/join macro family.",
     "Trusted: rustc MIR, char::len_utf8 (std) vs encode_utf8 arms (C07), the &CStr type invariant for the walk. Not decided: "
     "the bytes of the resulting constants (that would need compile-time evaluation as an oracle).")
 chk("C11", "static analysis: MaybeUninit init-typestate (path coverage on the pruned CFG) over macro expansions in a witness crate, protocol rules for ArrayBuilder",
